@@ -87,7 +87,7 @@ from vgi_rpc.rpc._wire import (
     _write_result_batch,
     _write_stream_header,
 )
-from vgi_rpc.shm import ShmSegment, resolve_shm_batch
+from vgi_rpc.shm import ShmSegment, is_shm_pointer_batch, resolve_shm_batch
 from vgi_rpc.transport_options import (
     TRANSPORT_OPTIONS_METHOD_NAME,
     worker_transport_metadata,
@@ -946,7 +946,7 @@ class RpcServer:
                 except ProtocolVersionError as exc:
                     err_schema = info.result_schema if info.method_type == MethodType.UNARY else _EMPTY_SCHEMA
                     _write_error_stream(transport.writer, err_schema, exc, server_id=self._server_id)
-                    self._discard_refused_stream_input(transport, info)
+                    self._discard_refused_stream_input(transport, info, static_shm or cached_shm)
                     return
 
             # Request validation. Both steps are answered with a typed error
@@ -970,7 +970,7 @@ class RpcServer:
             except Exception as exc:
                 err_schema = info.result_schema if info.method_type == MethodType.UNARY else _EMPTY_SCHEMA
                 _write_error_stream(transport.writer, err_schema, exc, server_id=self._server_id)
-                self._discard_refused_stream_input(transport, info)
+                self._discard_refused_stream_input(transport, info, static_shm or cached_shm)
                 return
 
             # Determine the SHM segment for this call's data plane (resolving
@@ -1014,7 +1014,9 @@ class RpcServer:
             _current_call_stats.reset(stats_token)
             _current_request_id.reset(token)
 
-    def _discard_refused_stream_input(self, transport: RpcTransport, info: RpcMethodInfo) -> None:
+    def _discard_refused_stream_input(
+        self, transport: RpcTransport, info: RpcMethodInfo, shm: ShmSegment | None = None
+    ) -> None:
         """Consume the input stream a client sends after a refused header-less stream call.
 
         A stream method that declares no header gives the client nothing to
@@ -1025,13 +1027,24 @@ class RpcServer:
         ``vgi_rpc.method`` and is answered with a protocol error, and from then
         on every call on the connection receives its predecessor's response.
 
+        Inputs the client routed through shared memory are freed as they are
+        discarded: the receiving side owns the release of an input region, and
+        nothing else will ever reference these.
+
         Streams that declare a header are unaffected -- their client reads the
         error in place of the header and never opens an input stream.
         """
         if info.method_type != MethodType.STREAM or info.header_type is not None:
             return
         with contextlib.suppress(pa.ArrowInvalid, OSError, EOFError, StopIteration):
-            _drain_stream(ValidatedReader(ipc.open_stream(transport.reader), self._ipc_validation))
+            reader = ValidatedReader(ipc.open_stream(transport.reader), self._ipc_validation)
+            while True:
+                batch, custom_metadata = reader.read_next_batch_with_custom_metadata()
+                if shm is not None and custom_metadata is not None and is_shm_pointer_batch(batch, custom_metadata):
+                    offset_bytes = custom_metadata.get(SHM_OFFSET_KEY)
+                    if offset_bytes is not None:
+                        with contextlib.suppress(ValueError):
+                            shm.free(int(offset_bytes))
 
     def _prepare_method_call(
         self, info: RpcMethodInfo, kwargs: dict[str, object]
@@ -1180,7 +1193,7 @@ class RpcServer:
             error_message = _truncate_error_message(exc)
             with contextlib.suppress(BrokenPipeError, OSError):
                 _write_error_stream(transport.writer, _EMPTY_SCHEMA, exc, server_id=self._server_id)
-            self._discard_refused_stream_input(transport, info)
+            self._discard_refused_stream_input(transport, info, shm)
             return
         finally:
             if status == "error":
@@ -1267,7 +1280,15 @@ class RpcServer:
                         # Resolve SHM pointer on input batch
                         input_batch, resolved_cm, release_fn = resolve_shm_batch(input_batch, resolved_cm, shm)
 
-                        input_batch = _coerce_input_batch(input_batch, input_schema)
+                        try:
+                            input_batch = _coerce_input_batch(input_batch, input_schema)
+                        except Exception:
+                            # The input is refused before anything takes
+                            # ownership of its shm region: free it here or it
+                            # stays allocated for the life of the segment.
+                            if release_fn is not None:
+                                release_fn()
+                            raise
 
                         ab_in = AnnotatedBatch(batch=input_batch, custom_metadata=resolved_cm, _release_fn=release_fn)
                         if prev_input is not None:
